@@ -178,8 +178,17 @@ func (t *Tree) Hash() []byte {
 	if t.root == nil {
 		return nil
 	}
-	hash := t.root.Hash(t)
-	// 更新memTree
+	return t.root.Hash(t)
+}
+
+// updateGlobalMem publishes the nodes of this tree to the global node cache (memTree).
+// It must only run once the nodes are in the database: GetNode trusts the cache more than
+// the database, so nodes of a tree that is never committed must not get there. With
+// EnableMavlPrefix the root hash does not depend on the block height while the keys of its
+// children do; a pending tree computed at another height used to replace the cached node of an
+// already committed root by one whose children do not exist in the database, and the next
+// read at the committed root panicked with ErrNodeNotExist.
+func (t *Tree) updateGlobalMem() {
 	if t.config != nil && t.config.EnableMemTree && memTree != nil && tkCloseCache != nil {
 		for k := range t.obsoleteNode {
 			memTree.Delete(k)
@@ -190,9 +199,8 @@ func (t *Tree) Hash() []byte {
 		for k, v := range t.tkCloseNode {
 			tkCloseCache.Add(k, v)
 		}
-		treelog.Debug("Tree.Hash", "memTree len", memTree.Len(), "tkCloseCache len", tkCloseCache.Len(), "tree height", t.blockHeight)
+		treelog.Debug("Tree.Save", "memTree len", memTree.Len(), "tkCloseCache len", tkCloseCache.Len(), "tree height", t.blockHeight)
 	}
-	return hash
 }
 
 // Save 保存整个tree的节点信息到db中
@@ -224,6 +232,8 @@ func (t *Tree) Save() []byte {
 		if err != nil {
 			return nil
 		}
+		// 更新memTree
+		t.updateGlobalMem()
 		// 该线程应只允许一个
 		if t.config != nil && t.config.EnableMavlPrune && !isPruning() &&
 			t.config.PruneHeight != 0 &&
